@@ -130,6 +130,12 @@ def run_kernels(ctx, prefix, tier, kernels=None, const_scalars=(0x53,), slices=(
                 _, h2, n2 = generate([k], [slice_len(k)], [(sl, 4) for sl in slices])
                 hs.append(h2)
                 names += n2
+            if KERNELS[k][0] == "add":
+                # start alignment: dest 3 bytes, src 5 bytes into their allocations
+                for n_ in ((65, 77, 131) if tier != "thorough" else (9, 17, 33, 65, 77, 129, 131)):
+                    hn = "c11_%s_len%d_misaligned" % (k, n_)
+                    hs.append("    #[kani::proof]\n    #[kani::unwind(%d)]\n    fn %s() { check_add_misaligned::<%d, %d, %d>(w_%s); }" % (n_ + 12, hn, n_, n_ + 3, n_ + 5, k))
+                    names.append((hn, False))
         ov.append_file("octets.rs", "c11_octets.rs", {"//@STUB_MODELS@": STUB_MODELS if std else "", "//@KERNEL_WRAPPERS@": "\n".join(ws),
                                                       "//@HARNESSES@": "\n".join(hs)})
         run_harnesses(ctx, ov, [n for n, _ in names], timeout_s=timeout_s, mem_gb=mem_gb, stubbing=True, replay_kind="kernel",
@@ -161,7 +167,7 @@ def describe(rep, tier):
         "packed bit vector": "all ceil(L/64) words symbolic"}
     rep.stubs = ["_mm_shuffle_epi8 / _mm256_shuffle_epi8 / _mm512_shuffle_epi8: per-lane table look-up model (Kani has no model of the LLVM pshufb intrinsic)",
                  "_bextr2_u32: shift-and-mask model", "both validated against this host's CPU by tools/validate_stubs (setup)"]
-    rep.assumptions = ["Kani's memory model has no alignment faults; the kernels use unaligned loads/stores, start alignment is therefore not a variable here",
+    rep.assumptions = ["Kani's memory model has no alignment faults; start alignment is exercised for the add kernels only (operands 3 resp. 5 bytes into their allocations); C09 cross-checks every alignment concretely through the slab",
                        "is_x86_feature_detected! dispatch is not executed (inline cpuid); each kernel is called directly, the public entry points in the no_std flavour",
                        "oracle: shift-and-xor multiplication modulo 0x11D in the harness"]
     rep.outside = ["NEON kernels (not compiled on this host)", "lengths above the bound", "the run-time dispatch itself",
